@@ -29,12 +29,14 @@ Theorem C09_unregister_replies_once : forall st k ch now,
   = [(ch, match aget k (d_svcs st) with Some _ => true | None => false end)].
 Proof. exact unregister_reply_once. Qed.
 
-(* FRAME: every other service, every registry and the interface table are untouched; the
-   service itself is gone. *)
+(* FRAME: every other service and the interface table are untouched; the service itself is gone; the
+   registries are untouched on NotFound and forget the service's own names on OK (fix d685fcf,
+   C09_unregister_forgets_the_service_names / C09_unregister_keeps_other_names). *)
 Theorem C09_unregister_frame : forall st k ch now,
   let st' := fst (unregister st k ch now) in
   (forall k', k' <> k -> aget k' (d_svcs st') = aget k' (d_svcs st)) /\
-  d_regs st' = d_regs st /\ d_intfs st' = d_intfs st /\
+  d_regs st' = match aget k (d_svcs st) with Some s => forget_regs (s_full s) (d_regs st) | None => d_regs st end /\
+  d_intfs st' = d_intfs st /\
   (NoDup (keys (d_svcs st)) -> aget k (d_svcs st') = None).
 Proof. exact unregister_frame. Qed.
 
@@ -43,7 +45,7 @@ Proof. exact unregister_frame. Qed.
 Theorem C09_goodbye_packets : forall st k ch now s,
   aget k (d_svcs st) = Some s ->
   unregister st k ch now =
-  (mkD (d_intfs st) (d_regs st) (adel k (d_svcs st))
+  (mkD (d_intfs st) (forget_regs (s_full s) (d_regs st)) (adel k (d_svcs st))
        (d_retrans st ++ map (resend_of now) (goodbyes_of st s)) (d_mon st) (d_dead st) (d_os st) (d_sel st),
    map send_of (goodbyes_of st s) ++ [OReply ch true]).
 Proof. exact unregister_found. Qed.
@@ -162,24 +164,52 @@ Example C09_queue_example :
   d_svcs (state_after w_unregister_ifs w_unregister_its 8) = [].
 Proof. exact w_unregister_queue. Qed.
 
-(* "After the repeat nothing of the service remains in the registry (active, probing)" is FALSE:
-   unregister removes the service from the service map and queues the repeat, the registries are
-   untouched (C09_unregister_frame).  Witness, reproduced on the real daemon: unregister (OK) after
-   the second probe - the third probe query still goes out with the records of the unregistered
-   service, both names become active with no service registered, and a re-registration 2.6 s later
-   is announced at once without probing.  chk_C09 and chk_C07 accept the run (a probe query is not a
-   response; the names were probed three times). *)
-Theorem C09_registry_forgets_unregistered_service_refuted :
+(* AFTER THE UNREGISTER NO REGISTRY HOLDS ANYTHING UNDER THE SERVICE'S OWN NAMES (formerly refuted,
+   fix d685fcf) - every state, hence all histories: on OK each interface registry becomes
+   forget_service (s_full s) rg, in which there is no probing, active or name_changes entry under the
+   registered full name or under the name the service had there at that moment ... *)
+Theorem C09_unregister_forgets_the_service_names : forall st k ch now s i rg,
+  aget k (d_svcs st) = Some s -> nget i (d_regs st) = Some rg ->
+  nget i (d_regs (fst (unregister st k ch now))) = Some (forget_service (s_full s) rg) /\
+  forall n, n = s_full s \/ n = resolve_name rg (s_full s) ->
+    aget n (rg_probing (forget_service (s_full s) rg)) = None /\ aget n (rg_active (forget_service (s_full s) rg)) = None /\
+    aget n (rg_changes (forget_service (s_full s) rg)) = None.
+Proof. exact unregister_forgets. Qed.
+
+(* ... and WHAT STAYS is everything under any other name, exactly as it was: the host-name entries
+   (the address records, probing or active, and a name change of the host name) and whatever other
+   services own.  The type and subtype PTR records are never registry entries (prepare_announce
+   probes SRV, TXT and address records only).
+   Can a stale host entry make the daemon say anything?  No live response: every record of every
+   response is built from a service in the service map (C09_responses_only_for_registered_services_
+   all_histories).  What it still does: a host-name probe in flight runs to its end (probe queries,
+   then activation; its waiting list still names the service, and the wake-up finds none), a conflict
+   on the host name is still handled, and a later service with the same host name finds the address
+   records active and does not probe them again. *)
+Theorem C09_unregister_keeps_other_names : forall full rg n,
+  n <> full -> n <> resolve_name rg full ->
+  aget n (rg_probing (forget_service full rg)) = aget n (rg_probing rg) /\
+  aget n (rg_active (forget_service full rg)) = aget n (rg_active rg) /\
+  aget n (rg_changes (forget_service full rg)) = aget n (rg_changes rg).
+Proof. exact forget_service_other. Qed.
+
+(* the former refutation witness, reproduced on the repaired daemon: unregister after the second
+   probe, the registry keeps the host-name probe only, third probe query for the host name only; the
+   re-registration 2.6 s later is probed three times anew and announced twice *)
+Example C09_unregister_while_probing_example :
+  reg_shape (state_after w_unreg_probing_ifs w_unreg_probing_its 3) = [([n_inst; n_host], [], [])] /\
   d_svcs (state_after w_unreg_probing_ifs w_unreg_probing_its 4) = [] /\
-  map (fun kr => (length (rg_probing (snd kr)), length (rg_active (snd kr)))) (d_regs (state_after w_unreg_probing_ifs w_unreg_probing_its 4)) = [(2, 0)]%nat /\
-  d_svcs (state_after w_unreg_probing_ifs w_unreg_probing_its 6) = [] /\
-  queue_times (state_after w_unreg_probing_ifs w_unreg_probing_its 6) = [] /\
-  map (fun kr => (length (rg_probing (snd kr)), length (rg_active (snd kr)))) (d_regs (state_after w_unreg_probing_ifs w_unreg_probing_its 6)) = [(0, 2)]%nat /\
+  reg_shape (state_after w_unreg_probing_ifs w_unreg_probing_its 4) = [([n_host], [], [])] /\
+  reg_shape (state_after w_unreg_probing_ifs w_unreg_probing_its 6) = [([], [n_host], [])] /\
+  wire_probe_times 2 n_inst (d_init w_unreg_probing_ifs) w_unreg_probing_its
+  = [1000145; 1000395; 1003079; 1003329; 1003579] /\
+  wire_probe_times 2 n_host (d_init w_unreg_probing_ifs) w_unreg_probing_its = [1000145; 1000395; 1000645] /\
   busy (timeline w_unreg_probing_ifs w_unreg_probing_its) =
   [ (1000145, true, false, false); (1000395, true, false, false); (1000645, true, false, false);
-    (1003000, false, true, false); (1004000, false, true, false) ] /\
+    (1003079, true, false, false); (1003329, true, false, false); (1003579, true, false, false);
+    (1003829, false, true, false); (1004829, false, true, false) ] /\
   self9 w_unreg_probing_ifs w_unreg_probing_its = [] /\ self7 w_unreg_probing_ifs w_unreg_probing_its = [].
-Proof. exact w_unreg_probing_refutes. Qed.
+Proof. exact w_unreg_probing_forgets. Qed.
 
 (* ---- round 5: SILENCE over ALL histories ------------------------------------------------------------------
    Vocabulary (Model/RegistryTrace.v): iter_states st it = the states after the micro-steps of the
@@ -207,7 +237,7 @@ Proof. exact responses_only_for_registered_services. Qed.
    the map and not registered again, no live record of any response - answer, additional,
    announcement - is built from a service stored under that key.  Nothing else is excluded: what
    the daemon still does for the service (probe queries, activation of its names) is in
-   C09_registry_forgets_unregistered_service_refuted. *)
+   C09_unregister_keeps_other_names. *)
 Theorem C09_no_live_record_of_unregistered_service_all_histories : forall ifs os its it k0 i v4 d m,
   let st := run_state (d_init_os ifs os) its in
   aget k0 (d_svcs st) = None -> ~ In k0 (registered_keys (it_calls it)) ->
@@ -276,7 +306,9 @@ Print Assumptions C09_repeat_run_once.
 Print Assumptions C09_no_overdue_repeat.
 Print Assumptions C09_queue_growth.
 Print Assumptions C09_queue_example.
-Print Assumptions C09_registry_forgets_unregistered_service_refuted.
+Print Assumptions C09_unregister_forgets_the_service_names.
+Print Assumptions C09_unregister_keeps_other_names.
+Print Assumptions C09_unregister_while_probing_example.
 Print Assumptions C09_responses_only_for_registered_services_all_histories.
 Print Assumptions C09_no_live_record_of_unregistered_service_all_histories.
 Print Assumptions C09_service_keys_during_iteration.
